@@ -96,7 +96,13 @@ class InternalCompiler(Compiler):
 
         # 3. If expr is already been computed, return its index
         elif expr in self.expqmap:
-            return self.expqmap[expr]
+            iret = self.expqmap[expr]
+            # 3.1 If a destination is given, the value has to be accumulated there
+            if dest is not None and iret != dest:
+                qc.cx(iret, dest)
+                qc.mark_ancilla(iret)
+                return dest
+            return iret
 
         # 4. Special mappings section
         # Add here special expressions mappings to QC
@@ -150,6 +156,7 @@ class InternalCompiler(Compiler):
         erets = list(map(lambda e: self.compile_expr(qc, e), expr.args))
 
         # 2. Get a destination qubit
+        is_fresh = dest is None
         if dest is None:
             dest = qc.get_free_ancilla()
 
@@ -161,9 +168,11 @@ class InternalCompiler(Compiler):
         erets = list(set(erets))
         qc.mcx(erets, dest)
 
-        # 5. Mark ancilla every argument and return
+        # 5. Mark ancilla every argument and return; dest holds expr only if it
+        # was a fresh qubit (otherwise expr has been xor-ed into its old value)
         [qc.mark_ancilla(eret) for eret in erets]
-        self.expqmap[expr] = dest
+        if is_fresh:
+            self.expqmap[expr] = dest
 
         return dest
 
@@ -179,6 +188,7 @@ class InternalCompiler(Compiler):
         erets = list(map(lambda e: self.compile_expr(qc, e), expr.args))
 
         # 2. Get a destination qubit
+        is_fresh = dest is None
         if dest is None:
             dest = qc.get_free_ancilla()
 
@@ -196,7 +206,8 @@ class InternalCompiler(Compiler):
 
         # 5. Mark ancilla every argument and return
         [qc.mark_ancilla(eret) for eret in erets]
-        self.expqmap[expr] = dest
+        if is_fresh:
+            self.expqmap[expr] = dest
 
         return dest
 
@@ -212,21 +223,25 @@ class InternalCompiler(Compiler):
             return iret
 
         # 1. Compile the expression
+        was_computed = expr.args[0] in self.expqmap
         eret = self.compile_expr(qc, expr.args[0])
 
-        # 2. If the expression is on an ancilla, perform the X updating the exp
-        if eret in qc.ancilla_lst:
+        # 2. If the expression is on an ancilla nobody else refers to, perform
+        # the X in place updating the exp
+        if eret in qc.ancilla_lst and not was_computed and dest is None:
             qc.x(eret)
             self.expqmap[expr] = eret
             return eret
         # 3. Otherwise map to a new qubit and perform the X
         else:
+            is_fresh = dest is None
             if dest is None:
                 dest = qc.get_free_ancilla()
             qc.cx(eret, dest)
             qc.x(dest)
             qc.mark_ancilla(eret)
-            self.expqmap[expr] = dest
+            if is_fresh:
+                self.expqmap[expr] = dest
 
             return dest
 
@@ -256,7 +271,8 @@ class InternalCompiler(Compiler):
             else:
                 d = self.compile_expr(qc, e, dest=d)
 
-        self.expqmap[expr] = d
+        if dest is None:
+            self.expqmap[expr] = d
         return d
 
     def compile_symbol(self, qc, expr, dest=None, sym=None) -> int:
